@@ -414,7 +414,7 @@ def main(argv=None):
         print("not reproduced")
         return 0
     quick = a.tier == "quick"
-    ev = common.Evidence(PROP, a.tier, a.seed, "exploration", "core: every verb x login state {none, USER pending, wrong PASS, logged then re-USER (pending / unknown user), logged, PASS first, re-USER same user} x 3 user tables (exhaustive over that grid); random: seeded histories (3..25 commands) interleaving USER/PASS (known, unknown, password-less, protected, right/wrong passwords) with every verb; non-trivial = at least one command was sent while the model says 'not logged in'; distinct = distinct run digests")
+    ev = common.Evidence(PROP, a.tier, a.seed, "exploration", "core: every verb x login state {none, USER pending, wrong PASS, logged then re-USER (pending / unknown user), logged, PASS first, re-USER same user} x 3 user tables (exhaustive over that grid); random: seeded histories (3..25 commands) interleaving USER/PASS (known, unknown, password-less, protected, right/wrong passwords) with every verb; non-trivial = at least one command was sent while the model says 'not logged in'; distinct = distinct run digests The core grid runs under three user managers (stock, suspending, digest-based); pipelined login bursts (several USER/PASS lines in one segment) run under suspending managers.")
     rep = common.Reporter(PROP, ev)
     deadline = time.time() + (a.budget or (60 if quick else 1200))
     n = 3000 if quick else 400000
